@@ -74,7 +74,7 @@ Proof. vm_compute. reflexivity. Qed.
 (* ---- back end: compile correctness on the models that are compared with the implementation on every run ----
 
    Fragment (model/ScalarFrag.v, model/VarProg.v): programs over top-level variables - any number of declarations
-   `x := e`, assignments `x = e`, expression statements, conditionals `if c { ... } else { ... }` / `if c { ... }` and condition loops
+   `x := e`, assignments `x = e`, `x += e` (also `-=` `*=` `/=`), `x++`, `x--`, expression statements, conditionals `if c { ... } else { ... }` / `if c { ... }` and condition loops
    `for c { ... }` (with `break` and `continue`) whose blocks are again lists of assignments, expression statements,
    conditionals and loops, nested to any depth -, whose expressions are built from integer / boolean / nil / string literals, variables declared
    earlier, prefix - and !, the arithmetic and comparison operators (on integers and strings), short-circuit && and
@@ -214,14 +214,14 @@ Qed.
 
 (* ... and with loops and nesting:
      a := 0; b := 0
-     for a < 9 { a = a + 1; if a == 2 { b = b + 10; for false { } } else { b = b + 1; b }; if a > 2 { b = b + 100; break }; if a == 1 { continue }; a }
+     for a < 9 { a++; if a == 2 { b += 10; for false { } } else { b = b + 1; b }; if a > 2 { b = b + 100; break }; if a == 1 { continue }; a }
      b                                                                                         (= 112)
    ends with fuel 6 but not with fuel 4 *)
 Definition ex_lprog : list stmt :=
   (SDecl (SInt 0) :: SDecl (SInt 0) ::
    SWhile (SBin CLt (SVar 0) (SInt 9))
-     (SSet 0 (SBin BAdd (SVar 0) (SInt 1)) ::
-      SIf (SBin CEq (SVar 0) (SInt 2)) (SSet 1 (SBin BAdd (SVar 1) (SInt 10)) :: SWhile (SBool false) nil :: nil)
+     (SInc 0 true ::
+      SIf (SBin CEq (SVar 0) (SInt 2)) (SSetOp 1 BAdd (SInt 10) :: SWhile (SBool false) nil :: nil)
                                        (SSet 1 (SBin BAdd (SVar 1) (SInt 1)) :: SExpr (SVar 1) :: nil) ::
       SIf1 (SBin CGt (SVar 0) (SInt 2)) (SSet 1 (SBin BAdd (SVar 1) (SInt 100)) :: SBreak :: nil) ::
       SIf1 (SBin CEq (SVar 0) (SInt 1)) (SContinue :: nil) ::
